@@ -20,6 +20,7 @@ from stone.ir import (
     is_list_type,
     is_struct_type,
     is_user_defined_type,
+    unwrap,
 )
 
 _base_type_table = {
@@ -61,6 +62,9 @@ def fmt_type_name(data_type):
     Returns the JSDoc name for the given data type.
     (Does not attempt to enumerate subtypes.)
     """
+    # Aliases and nullability have no JSDoc name of their own: a reference
+    # nested in a List would otherwise degrade to 'Object'.
+    data_type, _, _ = unwrap(data_type)
     if is_user_defined_type(data_type):
         return fmt_pascal('{}{}'.format(data_type.namespace.name, data_type.name))
     else:
@@ -75,6 +79,7 @@ def fmt_type(data_type):
     Returns a JSDoc annotation for a data type.
     May contain a union of enumerated subtypes.
     """
+    data_type, _, _ = unwrap(data_type)
     if is_struct_type(data_type) and data_type.has_enumerated_subtypes():
         possible_types = []
         possible_subtypes = data_type.get_all_subtypes_with_tags()
